@@ -2,6 +2,7 @@ import Hgxv.Proofs.C10Graph
 import Hgxv.Proofs.C10Line
 import Hgxv.Proofs.C10Simplicial
 import Hgxv.Proofs.C10Bipartite
+import Hgxv.Proofs.C10Similarity
 import Mathlib.Tactic.NormNum.Inv
 import Mathlib.Tactic.NormNum.Ineq
 /-! # C10 — graph projections encode exactly the incidence structure of the hypergraph
@@ -187,7 +188,7 @@ theorem C10_id_table {α : Type} (es : List α) (i : Nat) : AL.get? (idTable es)
       if k ≤ i then l[i - k]? else none := by
     intro l
     induction l with
-    | nil => intro k i; simp [AL.get?]
+    | nil => intro k i; simp
     | cons a t ih =>
       intro k i
       simp only [List.zipIdx_cons, List.map_cons, AL.get?, ih]
@@ -339,3 +340,38 @@ example : AL.keys (bipartite [10, 20, 30, 40] [[10, 20], [20, 30, 10], [30]]).g.
     AL.get? (bipartite [10, 20, 30, 40] [[10, 20], [20, 30, 10], [30]]).g.adj (.N 2, .E 0) = none ∧
     AL.get? (bipartite [10, 20, 30, 40] [[10, 20], [20, 30, 10], [30]]).idToObj (.E 2) = some (.edge [30]) := by
   decide
+
+/-! ## the similarity functions and the corner the Jaccard hypothesis excludes -/
+
+/-- on duplicate-free tuples `intersection` is `|A ∩ B|`, the denominator is `|A ∪ B|`, `jaccard_similarity` is their
+quotient (a `ZeroDivisionError`, `none`, exactly when both are empty), `jaccard_distance` is one minus it, and both
+are symmetric -/
+theorem C10_similarity (a b : List Nat) (ha : a.Nodup) (hb : b.Nodup) :
+    interSize a b = (a.toFinset ∩ b.toFinset).card ∧
+    unionSize a b = (a.toFinset ∪ b.toFinset).card ∧
+    (jaccard? a b = if a = [] ∧ b = [] then none
+      else some (((a.toFinset ∩ b.toFinset).card : Rat) / ((a.toFinset ∪ b.toFinset).card : Rat))) ∧
+    jaccardDistance? a b = (jaccard? a b).map (fun x => 1 - x) ∧
+    (∀ d, distV d a b = distV d b a) ∧
+    distV .intersection a b = ((a.toFinset ∩ b.toFinset).card : Rat) ∧
+    distV .jaccard a b = ((a.toFinset ∩ b.toFinset).card : Rat) / ((a.toFinset ∪ b.toFinset).card : Rat) := by
+  have hi := interSize_eq_card a b ha
+  have hu := unionSize_eq_card a b ha hb
+  refine ⟨hi, hu, ?_, rfl, fun d => distV_comm d a b ha hb, by simp [distV, hi], by simp [distV, hi, hu]⟩
+  unfold jaccard?
+  by_cases h : a = [] ∧ b = []
+  · obtain ⟨rfl, rfl⟩ := h; simp [unionSize]
+  · have hne : unionSize a b ≠ 0 := by
+      by_cases h1 : a = []
+      · exact unionSize_ne_zero_right (fun h2 => h ⟨h1, h2⟩)
+      · exact unionSize_ne_zero_left h1
+    rw [if_neg hne, if_neg h, ← hi, ← hu]
+
+/-- without non-empty sides the Jaccard directed line graph divides by zero: whenever some hyperedge has an empty
+target set and another one an empty source set, `directed_line_graph(h, "jaccard", ...)` raises (model: `none`) -/
+theorem C10_directed_line_raises (es : List DEdge) (s : Rat) (weighted : Bool) (e f : DEdge)
+    (he : e ∈ es) (hf : f ∈ es) (hne : e ≠ f) (h1 : e.2 = []) (h2 : f.1 = []) :
+    directedLineGraph es .jaccard s weighted = none := by
+  apply foldlM_none_of_mem _ _ (e, f) (mem_allOrdered.2 ⟨he, hf⟩)
+  intro g
+  simp [dlgVisit, hne, h1, h2, dist?, jaccard?, unionSize]
